@@ -308,6 +308,26 @@ var smallAlphabet = tmplAlphabet{
 	Verbs: []string{"", "vb"},
 }
 
+// longAlphabet is the reduced alphabet of the long-template family (4+ segments): what is
+// enumerated exhaustively here is depth - long shared prefixes, three variables, a deep variable
+// followed by further segments, ** after a long prefix - rather than breadth of forms.
+var longAlphabet = tmplAlphabet{
+	Mid:   []string{"a", "{$}", "{$=a/*}"},
+	Last:  []string{"{$=**}", "**"},
+	Verbs: []string{"", "vb"},
+}
+
+// longTemplates lists every template over longAlphabet with 4..maxSeg segments.
+func longTemplates(maxSeg int) []tmpl.T {
+	var out []tmpl.T
+	for _, t := range enumTemplates(longAlphabet, maxSeg) {
+		if len(t.Segs) >= 4 {
+			out = append(out, t)
+		}
+	}
+	return out
+}
+
 // enumTemplates lists every template with 1..maxSeg segments over the alphabet; every field
 // is bound at most once.
 func enumTemplates(a tmplAlphabet, maxSeg int) []tmpl.T {
